@@ -5,8 +5,11 @@
 (* that the driver forces on the real object.                                  *)
 (*  edges (cfg with VIEW): one shortest behaviour per (model state, step)      *)
 (*  sim   (tlc -simulate): random behaviours                                   *)
+(*  VERIF_SLOW=1: the slow settlement layer -- bursts of credits, payrelease     *)
+(*  (the Pay call in progress returns), paydrain (every Pay call is released     *)
+(*  until nothing is left); no gates for the scenario goroutines                 *)
 EXTENDS Accounting, TLC, Json, IOUtils
-VARIABLE hist
+VARIABLES hist, nrel
 
 GThreads == 1..3
 GCredits == {1, 2}
@@ -22,28 +25,47 @@ GMaxOps == atoi(EnvOr("VERIF_MAXOPS", "6"))
 \* is then part of the behaviour, and the driver does not touch a peer before the scenario does
 GFresh == EnvOr("VERIF_FRESH", "0") = "1"
 
+\* VERIF_SLOW=1: Pay calls stay in progress until released; the queue holds VERIF_QCAP requests (the code's pay channel:
+\* 1000); credits arrive as bursts of 1 / exactly what the idle layer absorbs (QCap + 1) / more than that (QCap + 3)
+GSlow == EnvOr("VERIF_SLOW", "0") = "1"
+GQCap == atoi(EnvOr("VERIF_QCAP", "1000"))
+GBursts == IF GSlow THEN {1, GQCap + 1, GQCap + 3} ELSE {}
+MaxRel == atoi(EnvOr("VERIF_MAXREL", "2"))
+\* slow alphabet: bursts at/above the threshold per credit (x = 2), a single credit below it, payment notifications
+SlowCalls == {c \in Calls : \/ c.kind = "burst" /\ (c.x = 2 \/ c.n = 1)
+                            \/ c.kind = "notify" /\ c.x = 3}
+
 \* VERIF_ONEPEER=1: every call targets peer 1 (all goroutines meet on the same, possibly fresh, peer)
-GCalls == IF EnvOr("VERIF_ONEPEER", "0") = "1" THEN {c \in Calls : c.p = 1} ELSE Calls
+GCalls == IF GSlow THEN SlowCalls ELSE IF EnvOr("VERIF_ONEPEER", "0") = "1" THEN {c \in Calls : c.p = 1} ELSE Calls
+\* slow: goroutines are interchangeable (no gates): a call is started by the lowest idle one; so are the peers: the
+\* first call goes to peer 1
+ThreadOK(t) == GSlow => \A t2 \in Threads : (t2 < t) => A.pc[t2] # "idle"
+PeerOK(c) == (GSlow /\ nops = 0) => c.p = 1
 
-CallOp(t, c) == [op |-> "call", t |-> t, kind |-> c.kind, p |-> c.p, x |-> c.x, traff |-> c.traff, avail |-> c.avail]
+CallOp(t, c) == [op |-> "call", t |-> t, kind |-> c.kind, p |-> c.p, x |-> c.x, traff |-> c.traff, avail |-> c.avail, n |-> c.n]
 
-GInit == Init /\ hist = <<>>
+GInit == Init /\ hist = <<>> /\ nrel = 0
 GNext ==
   /\ Len(hist) < Depth
-  /\ \/ /\ A.granted # 0 /\ Do(Grant(A, A.granted), "grant") /\ UNCHANGED nops
+  /\ \/ /\ A.granted # 0 /\ Do(Grant(A, A.granted), "grant") /\ UNCHANGED <<nops, nrel>>
         /\ hist' = Append(hist, [op |-> "grant", t |-> A.granted])
-     \/ /\ nops < GMaxOps /\ nops' = nops + 1
+     \/ /\ nops < GMaxOps /\ nops' = nops + 1 /\ UNCHANGED nrel
         /\ \E t \in Threads, c \in GCalls :
-             StartAllowed(A, t, c) /\ Do(Start(A, t, c), "call") /\ hist' = Append(hist, CallOp(t, c))
-     \/ /\ UNCHANGED nops
+             ThreadOK(t) /\ PeerOK(c) /\ StartAllowed(A, t, c) /\ Do(Start(A, t, c), "call") /\ hist' = Append(hist, CallOp(t, c))
+     \/ /\ UNCHANGED <<nops, nrel>>
         /\ \E t \in Threads : ReleaseOK(A, t) /\ Do(Release(A, t), "release")
                               /\ hist' = Append(hist, [op |-> "release", t |-> t])
-GSpec == GInit /\ [][GNext]_<<vars, nops, hist>>
+     \/ /\ GSlow /\ nrel < MaxRel /\ nrel' = nrel + 1 /\ UNCHANGED nops
+        /\ PayReleaseOK(A) /\ Do(PayRelease(A), "payrelease") /\ hist' = Append(hist, [op |-> "payrelease"])
+     \/ /\ GSlow /\ UNCHANGED <<nops, nrel>>
+        /\ DrainOK(A) /\ A.inpay # 0 /\ Do(Drain(A), "paydrain") /\ hist' = Append(hist, [op |-> "paydrain"])
+GSpec == GInit /\ [][GNext]_<<vars, nops, hist, nrel>>
 
 \* counters are not part of the view: two states that differ only in them continue alike
-EdgeView == <<A.unpaid, A.lock, A.known, A.maplock, A.pc, A.loc, A.granted, IF hist = <<>> THEN <<>> ELSE <<hist[Len(hist)]>> >>
+EdgeView == <<A.unpaid, A.lock, A.known, A.maplock, A.pc, A.loc, A.granted, A.q, A.inpay, A.sendq, nrel,
+              IF hist = <<>> THEN <<>> ELSE <<hist[Len(hist)]>> >>
 
-Scn == [par |-> [thr |-> Thr, tol |-> Tol, init |-> <<0, 0>>, fresh |-> GFresh], ops |-> hist]
+Scn == [par |-> [thr |-> Thr, tol |-> Tol, init |-> <<0, 0>>, fresh |-> GFresh, slow |-> GSlow, qcap |-> QCap], ops |-> hist]
 EmitAll  == hist # <<>> => PrintT(<<"SCN", ToJson(Scn)>>)
 \* simulation: behaviours that used all their calls, or are long
 EmitFull == (Len(hist) = Depth \/ (nops = GMaxOps /\ \A t \in Threads : A.pc[t] = "idle")) => PrintT(<<"SCN", ToJson(Scn)>>)
